@@ -547,15 +547,16 @@ func init() {
 					}
 				}
 				for late := int64(0); late < 2; late++ {
-					for _, k := range []int64{1, 2, 3, 4} {
+					for _, k := range []int64{1, 2, 3, 4, 5, 6} {
 						out = append(out, Inst{Pkg: "knx", Fn: "HarnessC04Stream", Args: []int64{k, tcp, late}})
 					}
 				}
 			}
+			out = append(out, Inst{Pkg: "knx", Fn: "HarnessC09Parked", Ctx: 3, MaxSched: 20000, Note: "no accepted telegram is lost across a reconnect"})
 			return out
 		},
 		Covers:  []string{"C04.delivered", "C04.reack", "C04.tcp.delivered", "C04.stream.accepted", "C04.stream.repeated", "C04.stream.end"},
-		Bounds:  "one real handleTunnelReq step from an arbitrary state: expected number, connection channel, request channel and sequence number all symbolic (all 256x256x256x256 combinations, wrap included), UDP/TCP, consumer waiting or arriving arbitrarily late, socket send failing or not, all interleavings with the parked delivery goroutine; plus the real process() goroutine of a fresh epoch fed with K<=3 (thorough 4) requests of symbolic channel/sequence, reader present from the start or arriving after the burst",
+		Bounds:  "one real handleTunnelReq step from an arbitrary state: expected number, connection channel, request channel and sequence number all symbolic (all 256x256x256x256 combinations, wrap included), UDP/TCP, consumer waiting or arriving arbitrarily late, socket send failing or not, all interleavings with the parked delivery goroutine; plus the real process() goroutine of a fresh epoch fed with K<=3 (thorough 6) requests of symbolic channel/sequence, reader present from the start or arriving after the burst",
 		Outside: "streams longer than K requests are covered by induction on the step only (the step harness starts from every counter value; process() carries no other state between iterations); delivery order (C17); reconnects inside one run (C09)",
 		Assume:  []string{"in-memory knxnet.Socket replaces the kernel"},
 	})
@@ -563,7 +564,7 @@ func init() {
 		var out []Inst
 		ks := []int64{1, 2, 3}
 		if thorough {
-			ks = []int64{1, 2, 3, 4}
+			ks = []int64{1, 2, 3, 4, 5}
 		}
 		for _, k := range ks {
 			for cfg := int64(0); cfg < 2; cfg++ {
@@ -595,7 +596,7 @@ func init() {
 		Quick:    func(l *loaded) []Inst { return c03(false) },
 		Thorough: func(l *loaded) []Inst { return c03(true) },
 		Covers:   []string{"C03.matched", "C03.unmatched", "C03.tcp", "C03.sendfails", "C03.relay.delivered", "C03.connect.ok", "C03.connect.fails", "C03.two.end"},
-		Bounds:   "one real Send from an arbitrary state (sequence number and channel symbolic, so the 255->0 wrap is included) against an environment that K<=3 (thorough 4) times stays silent, lets a resend interval pass, offers an acknowledgement with symbolic sequence number and status, or closes the ack channel; two configurations (resend 2s/timeout 5s, 3s/7s) on the virtual clock; socket failing at the first or second transmission; TCP; handleTunnelRes offer window; requestConn outcomes; two concurrent senders against a gateway goroutine that acknowledges, loses or duplicates (context bound 2-3)",
+		Bounds:   "one real Send from an arbitrary state (sequence number and channel symbolic, so the 255->0 wrap is included) against an environment that K<=3 (thorough 5) times stays silent, lets a resend interval pass, offers an acknowledgement with symbolic sequence number and status, or closes the ack channel; two configurations (resend 2s/timeout 5s, 3s/7s) on the virtual clock; socket failing at the first or second transmission; TCP; handleTunnelRes offer window; requestConn outcomes; two concurrent senders against a gateway goroutine that acknowledges, loses or duplicates (context bound 2-3)",
 		Outside:  "3..8 concurrent senders and 600 Sends (one exchange from every counter value stands for any number of exchanges: requestTunnel keeps no other state between calls); real-time jitter: virtual time advances only when no goroutine can move",
 		Assume:   []string{"time.After/NewTicker/Stop are engine primitives on a virtual clock (timers never fire early, fire when nothing else can run)", "sync.Mutex: Unlock makes any waiter or newcomer eligible"},
 	})
@@ -609,7 +610,14 @@ func init() {
 			}
 			for k := int64(2); k <= maxK; k++ {
 				for mode := int64(0); mode < 4; mode++ {
-					out = append(out, Inst{Pkg: "knx", Fn: fn, Args: []int64{client, k, mode}})
+					in := Inst{Pkg: "knx", Fn: fn, Args: []int64{client, k, mode}}
+					if fn == "HarnessC17BB" && k >= 4 {
+						in.Ctx = 3 // bursts of 4 and 5 through the constructor-built clients: context bound 3
+					}
+					if client == 7 {
+						in.Ctx = 2 // one more goroutine (group layer) in the pipeline
+					}
+					out = append(out, in)
 				}
 			}
 		}
@@ -636,7 +644,7 @@ func init() {
 		Quick:    func(l *loaded) []Inst { return c17(3) },
 		Thorough: func(l *loaded) []Inst { return c17(5) },
 		Covers:   []string{"C17.end"},
-		Bounds:   "tunnel client (pushInbound directly, through handleTunnelReq in UDP and TCP mode, and a client built by the real NewTunnel fed through its socket in UDP and TCP mode), router client (built by the real NewRouter, fed through its socket) and the group layer (serveGroupInbound on a plain channel, and a group tunnel built by NewGroupTunnel); bursts of 2..3 (thorough ..5) accepted telegrams for every client and consumer behaviour, plus bursts of 6 and 7 (thorough 8) with the reader resuming in the middle for the tunnel (pushInbound; NewTunnel-built, context bound 2) and the router (context bound 2); consumer always waiting, absent for the whole burst, taking one telegram and then stalling, or resuming in the middle of the burst; every interleaving of the server side, the parked delivery goroutines and the consumer",
+		Bounds:   "tunnel client (pushInbound directly, through handleTunnelReq in UDP and TCP mode, and a client built by the real NewTunnel fed through its socket in UDP and TCP mode), router client (built by the real NewRouter, fed through its socket) and the group layer (serveGroupInbound on a plain channel, and a group tunnel built by NewGroupTunnel); bursts of 2..3 (thorough ..5; constructor-built clients from 4 on with context bound 3, the NewGroupTunnel pipeline always with context bound 2) accepted telegrams for every client and consumer behaviour, plus bursts of 6 and 7 (thorough 8) with the reader resuming in the middle for the tunnel (pushInbound; NewTunnel-built, context bound 2) and the router (context bound 2); consumer always waiting, absent for the whole burst, taking one telegram and then stalling, or resuming in the middle of the burst; every interleaving of the server side, the parked delivery goroutines and the consumer",
 		Outside:  "bursts longer than 8; the runtime's FIFO order among senders that are already blocked is not modelled (any blocked sender may be served), which only adds schedules",
 		Assume:   []string{"the pinned tree reordered overflowed telegrams (per-telegram goroutines); repaired by the fix: commit recorded in known_findings.json, so all consumer behaviours are enforced now"},
 	})
@@ -644,6 +652,9 @@ func init() {
 	c14 := func(thorough bool) []Inst {
 		var out []Inst
 		rs := []int64{1, 2, 3}
+		if thorough {
+			rs = []int64{1, 2, 3, 4, 5}
+		}
 		for _, R := range rs {
 			for r := int64(0); r <= R; r++ {
 				for mode := int64(0); mode <= 3; mode++ {
@@ -659,7 +670,7 @@ func init() {
 		}
 		ctx := 2
 		if thorough {
-			ctx = 3
+			ctx = 4
 		}
 		for sc := int64(0); sc <= 4; sc++ {
 			out = append(out, Inst{Pkg: "knx", Fn: "HarnessC14Run", Args: []int64{sc}, Ctx: ctx, RandChoice: true, MaxSched: 20000, Note: "real serve goroutine"})
@@ -672,7 +683,7 @@ func init() {
 		Quick:    func(l *loaded) []Inst { return c14(false) },
 		Thorough: func(l *loaded) []Inst { return c14(true) },
 		Covers:   []string{"C14.step.sent", "C14.step.sendfail", "C14.lost.resent", "C14.lost.partial", "C14.run.end"},
-		Bounds:   "one real Send / resendLost step from every retained history of length r <= R for R in {1,2,3} and R = 32 with r <= 3 (messages are distinct objects), lost count fully symbolic (0..65535), transmission failing at a nondeterministic position; bounded runs of the real serve goroutine with senders, lost and busy indications, slow/absent reader and Close, context bound 2 (thorough 3)",
+		Bounds:   "one real Send / resendLost step from every retained history of length r <= R for R in {1,2,3} (thorough ..5) and R = 32 with r <= 3 (messages are distinct objects), lost count fully symbolic (0..65535), transmission failing at a nondeterministic position; bounded runs of the real serve goroutine with senders, lost and busy indications, slow/absent reader and Close, a lost indication before, after and inside a busy period, context bound 2 (thorough 4)",
 		Outside:  "retain counts 4..31 and 33..64, 300-send histories (covered by induction over the one-step harness: Send and resendLost keep no state but the list), a lost indication arriving while an earlier resend is still in progress (excluded by the property)",
 		Assume:   []string{"container/list is executed from its real SSA", "in the bounded runs math/rand.Float64 is one of {0, 0.5, 0.9999999}"},
 	})
@@ -712,7 +723,7 @@ func init() {
 		var out []Inst
 		ks := []int64{1, 2, 3}
 		if thorough {
-			ks = []int64{1, 2, 3, 4}
+			ks = []int64{1, 2, 3, 4, 5, 6}
 		}
 		for _, k := range ks {
 			out = append(out, Inst{Pkg: "knx", Fn: "HarnessC09ConnState", Args: []int64{k}})
@@ -725,7 +736,7 @@ func init() {
 		}
 		ctx := 2
 		if thorough {
-			ctx = 3
+			ctx = 4
 		}
 		out = append(out, Inst{Pkg: "knx", Fn: "HarnessC09Parked", Ctx: ctx, MaxSched: 20000, Note: "telegrams parked while the reader is absent survive a reconnect"},
 			Inst{Pkg: "knx", Fn: "HarnessC09SendAcross", Args: []int64{0}, Ctx: 2, MaxSched: 20000, Note: "a Send waiting behind a pending one while the gateway reconnects"},
@@ -751,7 +762,7 @@ func init() {
 		Quick:    func(l *loaded) []Inst { return c09(false) },
 		Thorough: func(l *loaded) []Inst { return c09(true) },
 		Covers:   []string{"C09.cs.answered", "C09.cs.failed", "C09.dispatch.disconnect_request", "C09.dispatch.disconnect_response", "C09.dispatch.ignored", "C09.epoch.healthy", "C09.epoch.failed", "C09.epoch.alive", "C09.epoch.terminated", "C09.parked.end", "C09.across.end", "C09.traffic.end", "C09.relay.delivered"},
-		Bounds:   "one real connection-state exchange from an arbitrary channel against K<=3 (thorough 4) environment events (silence, resend interval passes, status with all 256 values symbolic, channel closed); the real process() dispatch on one frame of each kind with a symbolic channel; bounded runs of the real serve() goroutine against a gateway goroutine over two epochs: heartbeat interval shorter (3.3 s) and longer (7.3 s) than the 5.1 s response timeout, heartbeat answered / unanswered / error status (symbolic) / foreign channel / disconnect request / first one answered twice and none afterwards, reconnect accepted (new channel symbolic) / busy then accepted / refused (status symbolic) / unanswered; initial channel and send counter symbolic; telegrams parked for an absent reader across a reconnect; a Send waiting behind a pending Send while the gateway drops and re-establishes the connection (channel/counter pair must be consistent); heartbeats under steady inbound traffic; context bound 2 (thorough 3)",
+		Bounds:   "one real connection-state exchange from an arbitrary channel against K<=3 (thorough 6) environment events (silence, resend interval passes, status with all 256 values symbolic, channel closed); the real process() dispatch on one frame of each kind with a symbolic channel; bounded runs of the real serve() goroutine against a gateway goroutine over two epochs: heartbeat interval shorter (3.3 s) and longer (7.3 s) than the 5.1 s response timeout, heartbeat answered / unanswered / error status (symbolic) / foreign channel / disconnect request / first one answered twice and none afterwards, reconnect accepted (new channel symbolic) / busy then accepted / refused (status symbolic) / unanswered; initial channel and send counter symbolic; telegrams parked for an absent reader across a reconnect; a Send waiting behind a pending Send while the gateway drops and re-establishes the connection (channel/counter pair must be consistent); heartbeats under steady inbound traffic; context bound 2 (thorough 4)",
 		Outside:  "runs of 3..5 epochs (an epoch change is covered as such; serve() keeps no state across epochs but the Tunnel fields checked here); interval values other than the two configurations; real-time jitter",
 		Assume:   []string{"timers on the virtual clock; interval values chosen so that few timers expire at the same instant"},
 	})
@@ -878,10 +889,10 @@ func init() {
 	reg(&Spec{
 		ID:       "C20",
 		NoNative: true,
-		Quick:    func(l *loaded) []Inst { return c20(3) },
-		Thorough: func(l *loaded) []Inst { return c20(5) },
+		Quick:    func(l *loaded) []Inst { return c20(4) },
+		Thorough: func(l *loaded) []Inst { return c20(7) },
 		Covers:   []string{"C20.describe.answered", "C20.describe.timeout", "C20.discover.end"},
-		Bounds:   "real DescribeTunnel / DiscoverOnInterface (with the real TunnelSocket/RouterSocket methods) against an environment that offers 0..3 (thorough 5) frames, each a description response, a search response or another frame, each after a delay of 0, 2 or 4 s on the virtual clock (timeout 5 s), every interleaving of offer and timeout; one request written, carrying the host info of the socket's local address; socket closed exactly once",
+		Bounds:   "real DescribeTunnel / DiscoverOnInterface (with the real TunnelSocket/RouterSocket methods) against an environment that offers 0..4 (thorough 7) frames, each a description response, a search response or another frame, each after a delay of 0, 2 or 4 s on the virtual clock (timeout 5 s), every interleaving of offer and timeout; one request written, carrying the host info of the socket's local address; socket closed exactly once",
 		Outside:  "real sockets (Dial/Listen are redirected to environment functions), scheduling slack (virtual time advances only when no goroutine can move)",
 	})
 
